@@ -18,6 +18,8 @@ import (
 	"cmp"
 	"log/slog"
 	"net/http"
+	"net/textproto"
+	"strings"
 	"time"
 )
 
@@ -69,8 +71,9 @@ func calculateCurrentAge(
 	h http.Header,
 	date, requestTime, responseTime time.Time,
 ) *Age {
-	// An invalid Age field is ignored; a huge one is capped instead of wrapping around.
-	ageVal, _ := parseDeltaSeconds(h.Get("Age"))
+	// RFC 9111 §5.1: of a list-based Age value the first member is used. An
+	// invalid one is ignored; a huge one is capped instead of wrapping around.
+	ageVal, _ := parseDeltaSeconds(firstListMember(h.Values("Age")))
 	apparentAge := max(responseTime.Sub(date), 0)
 	responseDelay := max(responseTime.Sub(requestTime), 0)
 	correctedAgeValue := SatAdd(ageVal, responseDelay)
@@ -80,6 +83,20 @@ func calculateCurrentAge(
 		Value:     SatAdd(correctedInitialAge, residentTime),
 		Timestamp: clock.Now(),
 	}
+}
+
+// firstListMember returns the first member of a list-based field value given
+// as its field lines: the lines are one comma-separated list (RFC 9110 §5.3),
+// white space around members and empty members do not count (§5.6.1).
+func firstListMember(lines []string) string {
+	for _, line := range lines {
+		for _, member := range strings.Split(line, ",") {
+			if member = textproto.TrimString(member); member != "" {
+				return member
+			}
+		}
+	}
+	return ""
 }
 
 const maxDuration = 1<<63 - 1
